@@ -1,14 +1,1068 @@
 package main
 
+// Codec family, payload modes: round trip of resources (C01), robustness of
+// every unmarshal entry point (C05), partial unmarshaling (C13), and the
+// relationship / absent-field half of C06.
+
 import (
+	"bytes"
 	"encoding/json"
+	"fmt"
+	"math/big"
 	"math/rand"
+	"net/http"
+	"os"
+	"reflect"
+	"sort"
+	"strings"
+
+	"github.com/mfcochauxlaberge/jsonapi"
 )
 
+// ---- the all-kinds schema -------------------------------------------------
+
+func allKindsFields() defMap {
+	f := defMap{"o": {Kind: "rel", To1: true, TT: "ak2"}, "m": {Kind: "rel", To1: false, TT: "ak2"}}
+	for _, k := range baseKinds {
+		n := kindName(k)
+		f["k"+n] = jDef{Kind: "attr", K: n}
+		f["p"+n] = jDef{Kind: "attr", K: n, Null: true}
+	}
+	return f
+}
+
+var ak2Fields = defMap{"s": {Kind: "attr", K: "string"}, "back": {Kind: "rel", To1: true, TT: "ak"}}
+
+var akSchemas = map[string]*jsonapi.Schema{}
+
+// akSchema: type "ak" (all 28 kinds, to-one, to-many) struct-backed or soft,
+// plus "ak2" of the other flavour (every schema mixes both).
+func akSchema(impl string) *jsonapi.Schema {
+	if s, ok := akSchemas[impl]; ok {
+		return s
+	}
+	s := &jsonapi.Schema{}
+	if impl == "wrap" {
+		typ, err := jsonapi.BuildType(reflect.New(structType("ak", allKindsFields(), kindMap{})).Interface())
+		must(err)
+		must(s.AddType(typ))
+		must(s.AddType(*softType("ak2", ak2Fields, kindMap{})))
+	} else {
+		must(s.AddType(*softType("ak", allKindsFields(), kindMap{})))
+		typ, err := jsonapi.BuildType(reflect.New(structType("ak2", ak2Fields, kindMap{})).Interface())
+		must(err)
+		must(s.AddType(typ))
+	}
+	akSchemas[impl] = s
+	return s
+}
+
+// ---- C01 round trip -----------------------------------------------------------
+
+type rtR struct {
+	OK        bool `json:"ok"`
+	TypeSame  bool `json:"type_same"`
+	IDSame    bool `json:"id_same"`
+	AttrsSame bool `json:"attrs_same"`
+	NilSame   bool `json:"nil_same"`
+	To1Same   bool `json:"to1_same"`
+	ManySame  bool `json:"tomany_same"`
+	LitOK     bool `json:"litclass_ok"`
+}
+
+type rtEvent struct {
+	Ev    string `json:"ev"`
+	Impl  string `json:"impl"`
+	Via   string `json:"via"`
+	Class string `json:"class"`
+	R     rtR    `json:"r"`
+	Ret   string `json:"ret"`
+}
+
+type rtCase struct {
+	Fam   string `json:"fam"`
+	Mode  string `json:"mode"`
+	Impl  string `json:"impl"`
+	Via   string `json:"via"`
+	Class string `json:"class"` // zero | nil | table | random
+	Table int    `json:"table"`
+	Seed  int64  `json:"seed"`
+	IDSel int    `json:"idsel"`
+}
+
+var rtIDs = []string{"1", "a b", "\x00<&>\"\\é漢\U0001F600", "x/y?z#w%20", strings.Repeat("long", 50)}
+
+// values of one round-trip case: field -> base value (nil = nil pointer)
+func rtValues(c rtCase) (map[string]any, string, []string) {
+	rng := rand.New(rand.NewSource(c.Seed))
+	vals := map[string]any{}
+	for _, k := range baseKinds {
+		n := kindName(k)
+		var v any
+		switch c.Class {
+		case "zero":
+			v = tableFor(0, 0).vals[k][0]
+		case "table":
+			vs := tableFor(c.Table, c.Seed).vals[k]
+			v = vs[(1+rng.Intn(len(vs)-1))%len(vs)]
+		default:
+			v = randomBase(rng, k)
+		}
+		vals["k"+n] = v
+		vals["p"+n] = v
+		if c.Class == "nil" || (c.Class == "random" && rng.Intn(4) == 0) {
+			vals["p"+n] = nil
+		}
+	}
+	o := ""
+	var m []string
+	if c.Class != "zero" && c.Class != "nil" {
+		o = rtIDs[rng.Intn(len(rtIDs))]
+		for i := rng.Intn(5); i > 0; i-- {
+			m = append(m, fmt.Sprintf("%s-%d", rtIDs[rng.Intn(len(rtIDs))], rng.Intn(3)))
+		}
+	}
+	return vals, o, m
+}
+
+func runRoundTrip(c rtCase) rtEvent {
+	ev := rtEvent{Ev: "rt", Impl: c.Impl, Via: c.Via, Class: c.Class, Ret: "ok"}
+	p, _ := catch(func() {
+		schema := akSchema(c.Impl)
+		fields := allKindsFields()
+		src := newRes(c.Impl, "ak", fields, kindMap{})
+		id := rtIDs[c.IDSel%len(rtIDs)]
+		src.Set("id", id)
+		vals, o, m := rtValues(c)
+		for f, v := range vals {
+			d := fields[f]
+			kind := kindOf(d.K)
+			switch {
+			case v == nil:
+				src.Set(f, jsonapi.GetZeroValue(kind, true))
+			case d.Null:
+				if b, ok := v.([]byte); ok {
+					v = append([]byte{}, b...)
+				}
+				src.Set(f, ptrTo(v))
+			default:
+				if b, ok := v.([]byte); ok {
+					v = append([]byte{}, b...)
+				}
+				src.Set(f, v)
+			}
+		}
+		src.Set("o", o)
+		src.Set("m", append([]string{}, m...))
+		all, rd := allFieldsOf(src)
+		var payload []byte
+		var back jsonapi.Resource
+		var err error
+		if c.Via == "document" {
+			url, uerr := jsonapi.NewURLFromRaw(schema, "/ak/x")
+			must(uerr)
+			url.Params.Fields = map[string][]string{"ak": all}
+			payload, err = jsonapi.MarshalDocument(&jsonapi.Document{Data: src, RelData: rd}, url)
+			if err != nil {
+				return
+			}
+			doc, derr := jsonapi.UnmarshalDocument(payload, schema)
+			if derr != nil {
+				return
+			}
+			back, _ = doc.Data.(jsonapi.Resource)
+			var top map[string]json.RawMessage
+			_ = json.Unmarshal(payload, &top)
+			payload = top["data"]
+		} else {
+			payload = jsonapi.MarshalResource(src, "/p", all, rd)
+			back, err = jsonapi.UnmarshalResource(payload, schema)
+			if err != nil {
+				return
+			}
+		}
+		if back == nil {
+			return
+		}
+		ev.R.OK = true
+		ev.R.TypeSame = back.GetType().Name == "ak"
+		bid, _ := back.Get("id").(string)
+		ev.R.IDSame = bid == id
+		ev.R.AttrsSame, ev.R.NilSame, ev.R.LitOK = true, true, true
+		var ro map[string]json.RawMessage
+		_ = json.Unmarshal(payload, &ro)
+		var rawAttrs map[string]json.RawMessage
+		_ = json.Unmarshal(ro["attributes"], &rawAttrs)
+		for f, v := range vals {
+			d := fields[f]
+			kind := kindOf(d.K)
+			got := back.Get(f)
+			isNil := got == nil || (reflect.ValueOf(got).Kind() == reflect.Ptr && reflect.ValueOf(got).IsNil())
+			if (v == nil) != isNil {
+				ev.R.NilSame = false
+				continue
+			}
+			if v == nil {
+				if strings.TrimSpace(string(rawAttrs[f])) != "null" {
+					ev.R.LitOK = false
+				}
+				continue
+			}
+			want := reflect.TypeOf(jsonapi.GetZeroValue(kind, d.Null))
+			if reflect.TypeOf(got) != want {
+				ev.R.AttrsSame = false
+				continue
+			}
+			if d.Null {
+				got = reflect.ValueOf(got).Elem().Interface()
+			}
+			if !sameValue(v, got) {
+				ev.R.AttrsSame = false
+			}
+			// integers are written as JSON numbers with all their digits
+			if classOf(kind) == "num" && kind != jsonapi.AttrTypeTime {
+				n, _ := new(big.Int).SetString(fmt.Sprint(v), 10)
+				if strings.TrimSpace(string(rawAttrs[f])) != n.String() {
+					ev.R.LitOK = false
+				}
+			}
+		}
+		bo, _ := back.Get("o").(string)
+		ev.R.To1Same = bo == o
+		bm, _ := back.Get("m").([]string)
+		ev.R.ManySame = reflect.DeepEqual(setOf(bm), setOf(m))
+	})
+	if p {
+		ev.Ret = "panic"
+	}
+	return ev
+}
+
+func setOf(ids []string) []string {
+	seen := map[string]bool{}
+	out := []string{}
+	for _, x := range ids {
+		if !seen[x] {
+			seen[x] = true
+			out = append(out, x)
+		}
+	}
+	sort.Strings(out)
+	return out
+}
+
+// ---- C05 robustness ------------------------------------------------------------
+
+type feedEvent struct {
+	Ev       string `json:"ev"`
+	Entry    string `json:"entry"`
+	Cls      string `json:"cls"` // json | notjson
+	Out      string `json:"out"` // ok | err | panic | both | neither
+	Conforms bool   `json:"conforms"`
+	BytesBad bool   `json:"bytesbad"` // a bytes attribute holds a value that is not a base64 string
+	Origin   string `json:"origin"`
+}
+
+type feedCase struct {
+	Fam     string `json:"fam"`
+	Mode    string `json:"mode"`
+	Impl    string `json:"impl"`
+	Entry   string `json:"entry"`
+	Payload string `json:"payload"` // base64 of the bytes fed
+	Origin  string `json:"origin"`
+}
+
+var feedEntries = []string{"UnmarshalDocument", "UnmarshalResource", "UnmarshalPartialResource", "UnmarshalCollection",
+	"UnmarshalIdentifier", "UnmarshalIdentifiers", "NewRequestPOST", "NewRequestPATCH", "NewRequestGET"}
+
+// conformsRes: the resource's type exists in the schema and every field holds a value of the declared Go type.
+func conformsRes(r jsonapi.Resource, schema *jsonapi.Schema, partial bool) bool {
+	if r == nil || reflect.ValueOf(r).IsNil() {
+		return false
+	}
+	name := r.GetType().Name
+	if !schema.HasType(name) {
+		return false
+	}
+	st := schema.GetType(name)
+	for k, a := range r.Attrs() {
+		sa, ok := st.Attrs[k]
+		if !ok || sa != a {
+			return false
+		}
+		v := r.Get(k)
+		if v == nil {
+			if !a.Nullable {
+				return false
+			}
+			continue
+		}
+		if reflect.TypeOf(v) != reflect.TypeOf(jsonapi.GetZeroValue(a.Type, a.Nullable)) {
+			return false
+		}
+	}
+	if !partial && len(r.Attrs()) != len(st.Attrs) {
+		return false
+	}
+	for k, rel := range r.Rels() {
+		sr, ok := st.Rels[k]
+		if !ok || sr.ToOne != rel.ToOne {
+			return false
+		}
+		v := r.Get(k)
+		if rel.ToOne {
+			if _, ok := v.(string); !ok {
+				return false
+			}
+		} else if _, ok := v.([]string); !ok {
+			return false
+		}
+	}
+	return true
+}
+
+func conformsDoc(doc *jsonapi.Document, schema *jsonapi.Schema) bool {
+	if doc == nil {
+		return false
+	}
+	switch d := doc.Data.(type) {
+	case nil:
+	case jsonapi.Resource:
+		if !conformsRes(d, schema, false) {
+			return false
+		}
+	case jsonapi.Collection:
+		for i := 0; i < d.Len(); i++ {
+			if !conformsRes(d.At(i), schema, false) {
+				return false
+			}
+		}
+	default:
+		return false
+	}
+	for _, r := range doc.Included {
+		if !conformsRes(r, schema, false) {
+			return false
+		}
+	}
+	return true
+}
+
+// hasBadBytes scans a JSON text for a bytes attribute of an "ak" resource whose value is not a base64 string.
+func hasBadBytes(payload []byte) bool {
+	var v any
+	if json.Unmarshal(payload, &v) != nil {
+		return false
+	}
+	bad := false
+	var walk func(x any)
+	walk = func(x any) {
+		switch t := x.(type) {
+		case map[string]any:
+			if attrs, ok := t["attributes"].(map[string]any); ok {
+				for _, name := range []string{"kbytes", "pbytes"} {
+					if val, present := attrs[name]; present {
+						s, isStr := val.(string)
+						if val == nil {
+							continue
+						}
+						if !isStr || classifyString(s) != "b64" {
+							bad = true
+						}
+					}
+				}
+			}
+			for _, y := range t {
+				walk(y)
+			}
+		case []any:
+			for _, y := range t {
+				walk(y)
+			}
+		}
+	}
+	walk(v)
+	return bad
+}
+
+func runFeed(c feedCase) feedEvent {
+	payload := []byte(mustB64(c.Payload))
+	ev := feedEvent{Ev: "feed", Entry: c.Entry, Cls: "notjson", Origin: c.Origin, BytesBad: hasBadBytes(payload)}
+	if json.Valid(payload) {
+		ev.Cls = "json"
+	}
+	schema := akSchema(c.Impl)
+	var (
+		err      error
+		hasRes   bool
+		conforms = true
+	)
+	p, _ := catch(func() {
+		switch c.Entry {
+		case "UnmarshalDocument":
+			doc, e := jsonapi.UnmarshalDocument(payload, schema)
+			err, hasRes = e, doc != nil
+			if e == nil {
+				conforms = conformsDoc(doc, schema)
+			}
+		case "UnmarshalResource":
+			r, e := jsonapi.UnmarshalResource(payload, schema)
+			err, hasRes = e, r != nil
+			if e == nil {
+				conforms = conformsRes(r, schema, false)
+			}
+		case "UnmarshalPartialResource":
+			r, e := jsonapi.UnmarshalPartialResource(payload, schema)
+			err, hasRes = e, r != nil
+			if e == nil {
+				conforms = conformsRes(r, schema, true)
+			}
+		case "UnmarshalCollection":
+			col, e := jsonapi.UnmarshalCollection(payload, schema)
+			err, hasRes = e, col != nil
+			if e == nil {
+				for i := 0; i < col.Len(); i++ {
+					if !conformsRes(col.At(i), schema, false) {
+						conforms = false
+					}
+				}
+			}
+		case "UnmarshalIdentifier":
+			id, e := jsonapi.UnmarshalIdentifier(payload, schema)
+			err, hasRes = e, id != jsonapi.Identifier{}
+			if e == nil {
+				conforms = schema.HasType(id.Type) && id.ID != ""
+			}
+		case "UnmarshalIdentifiers":
+			ids, e := jsonapi.UnmarshalIdentifiers(payload, schema)
+			err, hasRes = e, len(ids) > 0
+			if e == nil {
+				hasRes = true
+				for _, id := range ids {
+					if !schema.HasType(id.Type) || id.ID == "" {
+						conforms = false
+					}
+				}
+			}
+		default:
+			method := strings.TrimPrefix(c.Entry, "NewRequest")
+			hr, herr := http.NewRequest(method, "http://x.org/ak/x", bytes.NewReader(payload))
+			must(herr)
+			req, e := jsonapi.NewRequest(hr, schema)
+			err, hasRes = e, req != nil
+			if e == nil && req.Doc != nil {
+				conforms = conformsDoc(req.Doc, schema)
+			}
+		}
+	})
+	switch {
+	case p:
+		ev.Out = "panic"
+	case err != nil && hasRes:
+		ev.Out = "both"
+	case err != nil:
+		ev.Out = "err"
+	case !hasRes && c.Entry != "UnmarshalIdentifier":
+		ev.Out = "neither"
+	default:
+		ev.Out = "ok"
+		ev.Conforms = conforms
+	}
+	if c.Entry == "NewRequestGET" && ev.Out == "ok" {
+		ev.Cls = "json" // the body is not read for GET: nothing to reject
+	}
+	return ev
+}
+
+// base payloads as trees
+func basePayloads(rng *rand.Rand) map[string]any {
+	res := func(id string) map[string]any {
+		return map[string]any{
+			"type": "ak", "id": id,
+			"attributes": map[string]any{"kstring": "s", "pstring": nil, "kint8": 5, "puint64": 18446744073709551615.0,
+				"kbool": true, "ktime": "2001-02-03T04:05:06Z", "kbytes": "YWI=", "pbytes": nil, "kuint16": 65535},
+			"relationships": map[string]any{
+				"o": map[string]any{"data": map[string]any{"type": "ak2", "id": "u"}, "links": map[string]any{"self": "/x"}, "meta": map[string]any{"k": 1}},
+				"m": map[string]any{"data": []any{map[string]any{"type": "ak2", "id": "v"}, map[string]any{"type": "ak2", "id": "v"}}},
+			},
+			"meta":  map[string]any{"rm": "x"},
+			"links": map[string]any{"self": "/ak/" + id},
+		}
+	}
+	return map[string]any{
+		"document": map[string]any{
+			"data":     res("x"),
+			"included": []any{map[string]any{"type": "ak2", "id": "u", "attributes": map[string]any{"s": "t"}}, res("y")},
+			"meta":     map[string]any{"m": []any{1, "a"}},
+			"jsonapi":  map[string]any{"version": "1.0"},
+			"links":    map[string]any{"self": "/ak/x"},
+		},
+		"collection-document": map[string]any{"data": []any{res("x"), res("y")}},
+		"errors-document":     map[string]any{"errors": []any{map[string]any{"id": "e", "status": "400", "links": map[string]any{"about": "u"}, "source": map[string]any{"pointer": "/"}, "meta": map[string]any{"a": 1}}}},
+		"resource":            res("x"),
+		"collection":          []any{res("x"), res("y")},
+		"identifier":          map[string]any{"type": "ak", "id": "x"},
+		"identifiers":         []any{map[string]any{"type": "ak", "id": "x"}, map[string]any{"type": "ak2", "id": "u"}},
+	}
+}
+
+var sixKinds = []any{float64(7), "str", true, nil, []any{}, map[string]any{}}
+
+// mutations: every slot of the tree replaced by each of the six JSON kinds, plus key removal
+func slotMutations(tree any) []any {
+	var out []any
+	var clone func(x any) any
+	clone = func(x any) any {
+		switch t := x.(type) {
+		case map[string]any:
+			m := map[string]any{}
+			for k, v := range t {
+				m[k] = clone(v)
+			}
+			return m
+		case []any:
+			s := make([]any, len(t))
+			for i, v := range t {
+				s[i] = clone(v)
+			}
+			return s
+		}
+		return x
+	}
+	type path []any
+	var paths []path
+	var walk func(x any, p path)
+	walk = func(x any, p path) {
+		paths = append(paths, append(path{}, p...))
+		switch t := x.(type) {
+		case map[string]any:
+			for _, k := range sortedKeys(t) {
+				walk(t[k], append(p, k))
+			}
+		case []any:
+			for i, v := range t {
+				walk(v, append(p, i))
+			}
+		}
+	}
+	walk(tree, nil)
+	set := func(root any, p path, v any, remove bool) any {
+		if len(p) == 0 {
+			return v
+		}
+		r := clone(root)
+		cur := r
+		for i := 0; i < len(p)-1; i++ {
+			switch k := p[i].(type) {
+			case string:
+				cur = cur.(map[string]any)[k]
+			case int:
+				cur = cur.([]any)[k]
+			}
+		}
+		switch k := p[len(p)-1].(type) {
+		case string:
+			if remove {
+				delete(cur.(map[string]any), k)
+			} else {
+				cur.(map[string]any)[k] = v
+			}
+		case int:
+			cur.([]any)[k] = v
+		}
+		return r
+	}
+	for _, p := range paths {
+		for _, v := range sixKinds {
+			out = append(out, set(tree, p, v, false))
+		}
+		if len(p) > 0 {
+			if _, ok := p[len(p)-1].(string); ok {
+				out = append(out, set(tree, p, nil, true))
+			}
+		}
+	}
+	return out
+}
+
+// ---- C13 partial + C06 payload half --------------------------------------------
+
+type relShape struct {
+	Name   string   `json:"name"`
+	To1    bool     `json:"to1"`
+	Shape  string   `json:"shape"` // absent | nodata | null | ident | list | badshape
+	Listed []string `json:"listed"`
+	Got    []string `json:"got"`
+}
+
+type payEvent struct {
+	Ev        string     `json:"ev"`
+	Impl      string     `json:"impl"`
+	Out       string     `json:"out"`  // full unmarshal: accept | reject | panic
+	Part      string     `json:"part"` // partial unmarshal: accept | reject | panic
+	Rels      []relShape `json:"rels"`
+	Present   []string   `json:"present"`  // attribute names present in the payload
+	PAttrs    []string   `json:"pattrs"`   // Attrs() of the partial result
+	PRels     []string   `json:"prels"`    // Rels() of the partial result
+	WantRels  []string   `json:"wantrels"` // relationships whose object carries a data member
+	AttrsSame bool       `json:"attrs_same"`
+	AbsentZ   bool       `json:"absent_zero"`
+	IDType    bool       `json:"idtype_same"`
+	Remarshal bool       `json:"remarshal_same"`
+	PName     bool       `json:"pname_ok"`
+	PDefs     bool       `json:"pdefs_ok"`
+	PVals     bool       `json:"pvals_same"`
+}
+
+type payCase struct {
+	Fam     string            `json:"fam"`
+	Mode    string            `json:"mode"`
+	Impl    string            `json:"impl"`
+	Attrs   map[string]string `json:"attrs"` // name -> raw JSON literal
+	Rels    []relShape        `json:"rels"`
+	Payload string            `json:"payload"`
+}
+
+func renderPayload(c payCase) string {
+	var b strings.Builder
+	b.WriteString(`{"type":"ak","id":"x1"`)
+	if len(c.Attrs) > 0 {
+		b.WriteString(`,"attributes":{`)
+		for i, k := range sortedKeys(c.Attrs) {
+			if i > 0 {
+				b.WriteByte(',')
+			}
+			fmt.Fprintf(&b, "%q:%s", k, c.Attrs[k])
+		}
+		b.WriteByte('}')
+	}
+	var rels []string
+	for _, r := range c.Rels {
+		switch r.Shape {
+		case "absent":
+		case "nodata":
+			rels = append(rels, fmt.Sprintf(`%q:{"links":{"self":"/s"},"meta":{"a":1}}`, r.Name))
+		case "null":
+			rels = append(rels, fmt.Sprintf(`%q:{"data":null}`, r.Name))
+		case "ident":
+			rels = append(rels, fmt.Sprintf(`%q:{"data":{"type":"ak2","id":%q}}`, r.Name, r.Listed[0]))
+		case "identbadtype": // an identifier whose type is not the relationship's target type
+			rels = append(rels, fmt.Sprintf(`%q:{"data":{"type":"ak","id":%q}}`, r.Name, r.Listed[0]))
+		case "list":
+			var ids []string
+			for _, id := range r.Listed {
+				ids = append(ids, fmt.Sprintf(`{"type":"ak2","id":%q}`, id))
+			}
+			rels = append(rels, fmt.Sprintf(`%q:{"data":[%s]}`, r.Name, strings.Join(ids, ",")))
+		case "badshape":
+			rels = append(rels, fmt.Sprintf(`%q:{"data":7}`, r.Name))
+		}
+	}
+	if len(rels) > 0 {
+		b.WriteString(`,"relationships":{` + strings.Join(rels, ",") + `}`)
+	}
+	b.WriteByte('}')
+	return b.String()
+}
+
+func idsOf(v any) []string {
+	switch t := v.(type) {
+	case string:
+		if t == "" {
+			return []string{}
+		}
+		return []string{t}
+	case []string:
+		return append([]string{}, t...)
+	}
+	return []string{"?"}
+}
+
+func runPayload(c payCase) payEvent {
+	ev := payEvent{Ev: "payload", Impl: c.Impl, Present: sortedKeys(c.Attrs), PAttrs: []string{}, PRels: []string{}, WantRels: []string{}}
+	schema := akSchema(c.Impl)
+	payload := []byte(renderPayload(c))
+	for _, r := range c.Rels {
+		if r.Shape == "null" || r.Shape == "ident" || r.Shape == "list" || r.Shape == "identbadtype" {
+			ev.WantRels = append(ev.WantRels, r.Name)
+		}
+	}
+	sort.Strings(ev.WantRels)
+	fields := allKindsFields()
+	var full jsonapi.Resource
+	var ferr error
+	if p, _ := catch(func() { full, ferr = jsonapi.UnmarshalResource(payload, schema) }); p {
+		ev.Out = "panic"
+	} else if ferr != nil {
+		ev.Out = "reject"
+	} else {
+		ev.Out = "accept"
+	}
+	ev.Rels = make([]relShape, len(c.Rels))
+	for i, r := range c.Rels {
+		r.Got = []string{}
+		if r.Listed == nil {
+			r.Listed = []string{}
+		}
+		if ev.Out == "accept" {
+			r.Got = idsOf(full.Get(r.Name))
+		}
+		ev.Rels[i] = r
+	}
+	if ev.Out == "accept" {
+		ev.AttrsSame, ev.AbsentZ = true, true
+		for f, d := range fields {
+			if d.Kind != "attr" {
+				continue
+			}
+			kind := kindOf(d.K)
+			got := full.Get(f)
+			if raw, ok := c.Attrs[f]; ok {
+				want, wok := indepValue(kind, d.Null, json.RawMessage(raw))
+				if !wok || !sameMaybeNil(want, got) {
+					ev.AttrsSame = false
+				}
+			} else {
+				isNil, r := tableFor(0, 0).rankOf(kind, d.Null, got)
+				if !(d.Null && isNil) && !(!d.Null && r == 0) {
+					ev.AbsentZ = false
+				}
+			}
+		}
+		id, _ := full.Get("id").(string)
+		ev.IDType = id == "x1" && full.GetType().Name == "ak"
+		// re-marshal: id, type, attributes and linkage come out as the same JSON values
+		all, rd := allFieldsOf(full)
+		out := jsonapi.MarshalResource(full, "/p", all, rd)
+		ev.Remarshal = remarshalSame(c, out)
+	}
+	var part *jsonapi.SoftResource
+	var perr error
+	if p, _ := catch(func() { part, perr = jsonapi.UnmarshalPartialResource(payload, schema) }); p {
+		ev.Part = "panic"
+	} else if perr != nil {
+		ev.Part = "reject"
+	} else {
+		ev.Part = "accept"
+		ev.PAttrs = sortedKeys(part.Attrs())
+		ev.PRels = sortedKeys(part.Rels())
+		st := schema.GetType("ak")
+		ev.PName = part.GetType().Name == st.Name
+		ev.PDefs, ev.PVals = true, true
+		for k, a := range part.Attrs() {
+			if st.Attrs[k] != a {
+				ev.PDefs = false
+			}
+			if ev.Out == "accept" && !sameMaybeNil(full.Get(k), part.Get(k)) {
+				ev.PVals = false
+			}
+		}
+		for k, r := range part.Rels() {
+			if st.Rels[k] != r {
+				ev.PDefs = false
+			}
+			// (marshaling the full result above sorted its to-many ids in place: compare as sets)
+			if ev.Out == "accept" && !reflect.DeepEqual(setOf(idsOf(full.Get(k))), setOf(idsOf(part.Get(k)))) {
+				ev.PVals = false
+			}
+		}
+	}
+	return ev
+}
+
+func sameMaybeNil(a, b any) bool {
+	nilOf := func(x any) bool {
+		if x == nil {
+			return true
+		}
+		rv := reflect.ValueOf(x)
+		return rv.Kind() == reflect.Ptr && rv.IsNil()
+	}
+	if nilOf(a) || nilOf(b) {
+		return nilOf(a) && nilOf(b)
+	}
+	ra, rb := reflect.ValueOf(a), reflect.ValueOf(b)
+	if ra.Kind() == reflect.Ptr {
+		a = ra.Elem().Interface()
+	}
+	if rb.Kind() == reflect.Ptr {
+		b = rb.Elem().Interface()
+	}
+	return sameValue(a, b)
+}
+
+func remarshalSame(c payCase, out []byte) bool {
+	var m map[string]json.RawMessage
+	if json.Unmarshal(out, &m) != nil {
+		return false
+	}
+	var id, typ string
+	if json.Unmarshal(m["id"], &id) != nil || json.Unmarshal(m["type"], &typ) != nil || id != "x1" || typ != "ak" {
+		return false
+	}
+	var attrs map[string]json.RawMessage
+	_ = json.Unmarshal(m["attributes"], &attrs)
+	fields := allKindsFields()
+	for f, raw := range c.Attrs {
+		d := fields[f]
+		kind := kindOf(d.K)
+		a, aok := indepValue(kind, d.Null, json.RawMessage(raw))
+		b, bok := indepValue(kind, d.Null, attrs[f])
+		if !aok || !bok || !sameMaybeNil(a, b) {
+			return false
+		}
+	}
+	var rels map[string]struct {
+		Data json.RawMessage `json:"data"`
+	}
+	_ = json.Unmarshal(m["relationships"], &rels)
+	for _, r := range c.Rels {
+		var got []string
+		data := rels[r.Name].Data
+		switch {
+		case len(data) == 0 || string(data) == "null":
+		case data[0] == '{':
+			var iden jsonapi.Identifier
+			_ = json.Unmarshal(data, &iden)
+			got = []string{iden.ID}
+			if iden.Type != "ak2" {
+				return false
+			}
+		default:
+			var idens []jsonapi.Identifier
+			_ = json.Unmarshal(data, &idens)
+			for _, i := range idens {
+				got = append(got, i.ID)
+				if i.Type != "ak2" {
+					return false
+				}
+			}
+		}
+		want := []string{}
+		if r.Shape == "ident" || r.Shape == "list" {
+			want = r.Listed
+		}
+		if r.Shape == "identbadtype" {
+			return false // the payload's linkage names another type: it cannot come out as the same JSON value
+		}
+		if !reflect.DeepEqual(setOf(got), setOf(want)) {
+			return false
+		}
+	}
+	return true
+}
+
+// ---- mode dispatch -----------------------------------------------------------------
+
 func codecOtherModes(mode string, rng *rand.Rand, stt *stats, w *evWriter, n int, seed int64, gen string) {
-	infra("codec mode %q not implemented yet", mode)
+	switch mode {
+	case "roundtrip":
+		for _, impl := range []string{"soft", "wrap"} {
+			for _, via := range []string{"resource", "document"} {
+				classes := []string{"zero", "nil"}
+				for t := 0; t < 3; t++ {
+					classes = append(classes, "table")
+				}
+				for i := 0; i < n; i++ {
+					classes = append(classes, "random")
+				}
+				for i, cls := range classes {
+					c := rtCase{Fam: "codec", Mode: "roundtrip", Impl: impl, Via: via, Class: cls, Table: i % 3,
+						Seed: seed*100003 + int64(i), IDSel: rng.Intn(len(rtIDs))}
+					ev := runRoundTrip(c)
+					stt.Calls += 2
+					stt.class("rt:" + impl + ":" + via)
+					stt.class("rt:" + cls)
+					stt.distinct(fmt.Sprint(c))
+					w.Emit(ev, c)
+				}
+			}
+		}
+		stt.Rule = "distinct (implementation, entry point, value class, seed) cases, each covering all 28 kinds and both relationship cardinalities"
+	case "robust":
+		bases := basePayloads(rng)
+		emit := func(impl, entry, origin string, payload []byte) {
+			c := feedCase{Fam: "codec", Mode: "robust", Impl: impl, Entry: entry, Payload: b64(string(payload)), Origin: origin}
+			ev := runFeed(c)
+			stt.Calls++
+			stt.class("entry:" + entry)
+			stt.class("out:" + ev.Out)
+			stt.class("cls:" + ev.Cls)
+			stt.class("origin:" + origin)
+			stt.distinct(entry + string(payload))
+			w.Emit(ev, c)
+		}
+		var corpus [][]byte
+		for _, name := range sortedKeys(bases) {
+			tree := bases[name]
+			valid, _ := json.Marshal(tree)
+			corpus = append(corpus, valid)
+			for _, entry := range feedEntries {
+				for _, impl := range []string{"soft", "wrap"} {
+					emit(impl, entry, "valid", valid)
+				}
+			}
+			muts := slotMutations(tree)
+			for i, m := range muts {
+				b, _ := json.Marshal(m)
+				impl := []string{"soft", "wrap"}[i%2]
+				for _, entry := range feedEntries {
+					emit(impl, entry, "slot", b)
+				}
+			}
+			// unknown / missing type, unknown field, duplicate key
+			for _, extra := range []string{
+				strings.Replace(string(valid), `"type":"ak"`, `"type":"nope"`, 1),
+				strings.Replace(string(valid), `"type":"ak",`, ``, 1),
+				strings.Replace(string(valid), `"kstring":"s"`, `"zz":1`, 1),
+				strings.Replace(string(valid), `"kstring":"s"`, `"kstring":"s","kstring":5`, 1),
+				strings.Replace(string(valid), `"id":"x"`, `"id":"x","id":"y"`, 1),
+				strings.Replace(string(valid), `"kbytes":"YWI="`, `"kbytes":"not base64!"`, 1),
+			} {
+				for _, entry := range feedEntries {
+					emit("soft", entry, "edit", []byte(extra))
+				}
+			}
+			// every strict prefix (thinned for long payloads)
+			step := 1 + len(valid)/120
+			for i := 0; i < len(valid); i += step {
+				for _, entry := range feedEntries[:6] {
+					emit("wrap", entry, "prefix", valid[:i])
+				}
+			}
+		}
+		deep := []byte(strings.Repeat(`{"data":`, 3000) + "1" + strings.Repeat("}", 3000))
+		deepArr := []byte(strings.Repeat("[", 20000) + strings.Repeat("]", 20000))
+		for _, entry := range feedEntries {
+			emit("soft", entry, "deep", deep)
+			emit("soft", entry, "deep", deepArr)
+		}
+		for i := 0; i < n; i++ {
+			src := corpus[rng.Intn(len(corpus))]
+			b := append([]byte{}, src...)
+			switch rng.Intn(4) {
+			case 0: // bit flips
+				for k := 1 + rng.Intn(3); k > 0; k-- {
+					b[rng.Intn(len(b))] ^= 1 << uint(rng.Intn(8))
+				}
+			case 1: // splice
+				o := corpus[rng.Intn(len(corpus))]
+				i, j := rng.Intn(len(b)), rng.Intn(len(o))
+				b = append(append([]byte{}, b[:i]...), o[j:]...)
+			case 2: // random bytes
+				b = randBytes(rng, rng.Intn(64))
+			case 3: // delete a span
+				i := rng.Intn(len(b))
+				j := i + rng.Intn(len(b)-i)
+				b = append(append([]byte{}, b[:i]...), b[j:]...)
+			}
+			emit([]string{"soft", "wrap"}[rng.Intn(2)], feedEntries[rng.Intn(len(feedEntries))], "random", b)
+		}
+		stt.Rule = "distinct (entry point, byte string) pairs"
+	case "partial":
+		fields := allKindsFields()
+		attrNames := []string{}
+		for f, d := range fields {
+			if d.Kind == "attr" {
+				attrNames = append(attrNames, f)
+			}
+		}
+		sort.Strings(attrNames)
+		okLit := func(f string) string {
+			d := fields[f]
+			switch classOf(kindOf(d.K)) {
+			case "seq":
+				if d.K == "bytes" {
+					return `"YWI="`
+				}
+				return `"v\u00e9"`
+			case "bool":
+				return "true"
+			}
+			if d.K == "time" {
+				return `"2001-02-03T04:05:06.5+02:00"`
+			}
+			return "7"
+		}
+		shapes := []string{"absent", "nodata", "null", "ident", "list", "badshape", "identbadtype"}
+		for i := 0; i < n; i++ {
+			c := payCase{Fam: "codec", Mode: "partial", Impl: []string{"soft", "wrap"}[i%2], Attrs: map[string]string{}}
+			// a subset of the attributes: small subsets systematically first, then random
+			for _, f := range attrNames {
+				if rng.Intn(6) == 0 {
+					c.Attrs[f] = okLit(f)
+					if fields[f].Null && rng.Intn(3) == 0 {
+						c.Attrs[f] = "null"
+					}
+				}
+			}
+			if i < len(attrNames) {
+				c.Attrs = map[string]string{attrNames[i]: okLit(attrNames[i])}
+			}
+			switch rng.Intn(12) {
+			case 0:
+				c.Attrs["kint8"] = "300" // out of range: both must refuse
+			case 1:
+				c.Attrs["zz"] = "1" // unknown field
+			case 2:
+				c.Attrs["kstring"] = "null"
+			}
+			so, sm := shapes[rng.Intn(len(shapes))], shapes[rng.Intn(len(shapes))]
+			if i < 49 {
+				so, sm = shapes[i%7], shapes[i/7]
+			}
+			listed := [][]string{{"u"}, {"v", "u"}, {"u", "u", "w"}, {}}[rng.Intn(4)]
+			ro := relShape{Name: "o", To1: true, Shape: so, Listed: []string{}}
+			rm := relShape{Name: "m", To1: false, Shape: sm, Listed: []string{}}
+			if so == "ident" || so == "identbadtype" {
+				ro.Listed = []string{"u"}
+			}
+			if so == "list" {
+				ro.Listed = listed
+			}
+			if sm == "ident" || sm == "identbadtype" {
+				rm.Listed = []string{"v"}
+			}
+			if sm == "list" {
+				rm.Listed = listed
+			}
+			c.Rels = []relShape{ro, rm}
+			ev := runPayload(c)
+			stt.Calls += 3
+			stt.class("full:" + ev.Out)
+			stt.class("part:" + ev.Part)
+			stt.class("shape:" + so)
+			stt.class("impl:" + c.Impl)
+			stt.distinct(renderPayload(c))
+			w.Emit(ev, c)
+		}
+		stt.Rule = "distinct resource payloads (attribute subset with literals, relationship object shapes)"
+	default:
+		infra("unknown codec mode %q", mode)
+	}
+}
+
+func mustB64(s string) string {
+	b, err := base64Decode(s)
+	must(err)
+	return string(b)
 }
 
 func codecReplayOther(mode string, raw json.RawMessage) {
-	infra("codec mode %q not implemented yet", mode)
+	switch mode {
+	case "roundtrip":
+		var c rtCase
+		must(json.Unmarshal(raw, &c))
+		os.Stdout.Write(jsonLine(runRoundTrip(c)))
+	case "robust":
+		var c feedCase
+		must(json.Unmarshal(raw, &c))
+		os.Stdout.Write(jsonLine(runFeed(c)))
+	case "partial":
+		var c payCase
+		must(json.Unmarshal(raw, &c))
+		os.Stdout.Write(jsonLine(runPayload(c)))
+	default:
+		infra("unknown codec mode %q", mode)
+	}
 }
